@@ -705,7 +705,23 @@ def has_var(t):
     return any(x[0] == "sym" for x in subtrees(t))
 
 
+def _sync_grammar():
+    """the differential's grammar follows the compiler's own op sets: an operator newly admitted by _ARITH_OPS /
+    _CMP_OPS / _REDUCE_SCAN_OPS is exercised in every form the compiler handles it"""
+    global UNARY, BINOPS
+    try:
+        sets, _, _, _, _ = read_tables()
+    except Exception:
+        sets = None
+    if sets:
+        ar, cm, rs, _ = sets
+        red = [o for o in "+*|&"] + [o for o in rs if o not in "+*|&"]
+        UNARY = [("neg",)] + [("adv", o, a) for a in "/\\" for o in red]
+        BINOPS = ["+", "-", "*", "%", "^", "<", ">", "="] + [o for o in ar + cm if o not in ["+", "-", "*", "%", "^", "<", ">", "="]]
+
+
 def all_depth1():
+    _sync_grammar()
     out = []
     for u in UNARY:
         for a in ATOMS:
@@ -1109,6 +1125,10 @@ def attribute_all(items, backend):
                         fid = "C05-torch-single-precision"
                 except Exception:
                     pass
+            if fid is None and backend == "torch":
+                und = {text_of(u2) for u2, a2, b2 in subs if b2 == "(u 1)"}
+                if any(u is not t and text_of(u) in und for u in subtrees(t)):
+                    fid = "C05-torch-undefined-operand"
             if fid is None:
                 why = "subexpression %s: compiled %s, interpreter %s" % (text_of(t), a, b)
                 break
